@@ -539,7 +539,11 @@ func readAllRecords(rr protocol.RecordReader) []string {
 		if r.Value != nil {
 			r.Value.Close()
 		}
-		xs = append(xs, canonRec(r.Offset, r.Time.UnixNano()/1000000, k, v, r.Headers, false))
+		ms := int64(0) // the zero time.Time (a record without timestamp) prints as 0, as on the Conn path
+		if !r.Time.IsZero() {
+			ms = r.Time.UnixNano() / 1000000
+		}
+		xs = append(xs, canonRec(r.Offset, ms, k, v, r.Headers, false))
 	}
 }
 
@@ -649,7 +653,7 @@ func fetchConn(set []byte, offset, next int64, fv int16) []string {
 			if !m.Time.IsZero() {
 				ms = m.Time.UnixNano() / 1000000
 			}
-			xs = append(xs, canonRec(m.Offset, ms, m.Key, m.Value, m.Headers, true))
+			xs = append(xs, canonRec(m.Offset, ms, m.Key, m.Value, m.Headers, false)) // exact: null and empty are told apart since fix 4db07b4
 		}
 	})
 }
@@ -663,6 +667,8 @@ type entryPlan struct {
 	txn     bool
 	recs    []rec
 	sparse  bool
+	empty   bool // v2 batch whose records were all compacted away (header retained, count 0)
+	extra   int  // attribute bits the library never writes but brokers do: timestamp type, delete horizon, unknown bits
 }
 
 type built struct {
@@ -696,6 +702,10 @@ func build(o *orc.Oracle, r *rand.Rand, base int64, plan []entryPlan) *built {
 	bt := &built{next: base}
 	for _, e := range plan {
 		n := len(e.recs)
+		nt := ""
+		if n > 0 && e.recs[0].ms == -1 {
+			nt = "nt" // no timestamp
+		}
 		switch e.kind {
 		case "m0", "m1":
 			magic := 0
@@ -708,12 +718,12 @@ func build(o *orc.Oracle, r *rand.Rand, base int64, plan []entryPlan) *built {
 					ms = 0
 				}
 				start := len(bt.bytes)
-				bt.bytes = append(bt.bytes, ask(o, fmt.Sprintf("encset m:%d:%d:0:%d:%s:%s", magic, bt.next, ms, wb(x.key), wb(x.value)))...)
+				bt.bytes = append(bt.bytes, ask(o, fmt.Sprintf("encset m:%d:%d:%d:%d:%s:%s", magic, bt.next, int(int8(e.extra)), ms, wb(x.key), wb(x.value)))...)
 				bt.next++
 				bt.ends = append(bt.ends, len(bt.bytes))
 				bt.crcAt = append(bt.crcAt, start+12+r.Intn(4))
 			}
-			bt.desc = append(bt.desc, fmt.Sprintf("%sx%d", e.kind, n))
+			bt.desc = append(bt.desc, fmt.Sprintf("%sx%d%s", e.kind, n, extraTag(e.extra)+nt))
 		case "w1":
 			var parts []string
 			rel := int64(0)
@@ -728,14 +738,33 @@ func build(o *orc.Oracle, r *rand.Rand, base int64, plan []entryPlan) *built {
 			comp := compressWith(e.codec, inner)
 			wrapperOff := bt.next + rel - 1
 			start := len(bt.bytes)
-			bt.bytes = append(bt.bytes, ask(o, fmt.Sprintf("encset m:1:%d:%d:%d:nil:%s", wrapperOff, e.codec, e.recs[n-1].ms, wb(comp)))...)
-			bt.zs = append(bt.zs, fmt.Sprintf("z%d:%d:%s", start+34, len(comp), wb(inner)))
+			// the wrapper's key: null as producers write it; the format allows bytes there (C05-D31), also empty
+			wkey, wkeyLen, ktag := "nil", 0, ""
+			switch r.Intn(4) {
+			case 0:
+				k := gen.Bytes(r, 1+r.Intn(9))
+				wkey, wkeyLen, ktag = wb(k), len(k), "k"
+			case 1:
+				if r.Intn(2) == 0 {
+					wkey, ktag = "-", "k0"
+				}
+			}
+			bt.bytes = append(bt.bytes, ask(o, fmt.Sprintf("encset m:1:%d:%d:%d:%s:%s", wrapperOff, int(int8(e.codec|e.extra)), e.recs[n-1].ms, wkey, wb(comp)))...)
+			bt.zs = append(bt.zs, fmt.Sprintf("z%d:%d:%s", start+34+wkeyLen, len(comp), wb(inner)))
 			bt.next = wrapperOff + 1
 			bt.ends = append(bt.ends, len(bt.bytes))
 			bt.crcAt = append(bt.crcAt, start+12+r.Intn(4))
-			bt.desc = append(bt.desc, fmt.Sprintf("w1c%dx%d%s", e.codec, n, map[bool]string{true: "s", false: ""}[e.sparse]))
+			bt.desc = append(bt.desc, fmt.Sprintf("w1c%dx%d%s%s%s", e.codec, n, map[bool]string{true: "s", false: ""}[e.sparse], ktag, extraTag(e.extra)+nt))
 		case "b2":
+			if e.empty {
+				// a batch whose records were all compacted away: the broker keeps the header (count 0, the offset range)
+				n = 0
+				e.recs, e.codec, e.control, e.sparse = e.recs[:1], 0, false, false
+			}
 			first, max := e.recs[0].ms, e.recs[0].ms
+			if e.empty {
+				e.recs = nil
+			}
 			var parts []string
 			delta := int64(0)
 			for i, x := range e.recs {
@@ -752,8 +781,13 @@ func build(o *orc.Oracle, r *rand.Rand, base int64, plan []entryPlan) *built {
 			if e.sparse && r.Intn(2) == 0 {
 				lod += int64(r.Intn(3)) // trailing records compacted away
 			}
-			payload := ask(o, "encrecs "+strings.Join(parts, ";"))
-			attrs := e.codec
+			payload := []byte{}
+			if e.empty {
+				lod = int64(r.Intn(3))
+			} else {
+				payload = ask(o, "encrecs "+strings.Join(parts, ";"))
+			}
+			attrs := int(int16(e.codec | e.extra))
 			if e.txn {
 				attrs |= 16
 			}
@@ -788,10 +822,43 @@ func build(o *orc.Oracle, r *rand.Rand, base int64, plan []entryPlan) *built {
 			if e.sparse {
 				flags += "s"
 			}
-			bt.desc = append(bt.desc, fmt.Sprintf("b2c%dx%d%s", e.codec, n, flags))
+			if e.empty {
+				flags += "e"
+			}
+			bt.desc = append(bt.desc, fmt.Sprintf("b2c%dx%d%s%s", e.codec, n, flags, extraTag(e.extra)+nt))
 		}
 	}
 	return bt
+}
+
+func extraTag(x int) string {
+	if x == 0 {
+		return ""
+	}
+	return fmt.Sprintf("a%x", x)
+}
+
+// extraBits: attribute bits set by brokers, never by this library: bit 3 timestamp type (LogAppendTime) for v1 and
+// v2; v2 only: bit 6 delete horizon, unknown bits 7..15; v1: unknown bits 4..7
+func extraBits(r *rand.Rand, kind string) int {
+	if kind == "m0" || r.Intn(2) == 0 {
+		return 0
+	}
+	x := 0
+	if r.Intn(2) == 0 {
+		x |= 8
+	}
+	if kind == "b2" {
+		if r.Intn(4) == 0 {
+			x |= 64
+		}
+		if r.Intn(4) == 0 {
+			x |= 1 << uint(7+r.Intn(9))
+		}
+	} else if r.Intn(4) == 0 {
+		x |= 1 << uint(4+r.Intn(4))
+	}
+	return x
 }
 
 func controlRecs(r *rand.Rand, ms int64) []rec {
@@ -824,7 +891,13 @@ func genPlan(r *rand.Rand, class int, thorough bool) []entryPlan {
 		default:
 			k = "b2"
 		}
-		e := entryPlan{kind: k, recs: rs}
+		if k != "m0" && r.Intn(8) == 0 {
+			// records without a timestamp (-1, NO_TIMESTAMP: produced by pre-0.10 clients and kept by up-conversion)
+			for j := range rs {
+				rs[j].ms = -1
+			}
+		}
+		e := entryPlan{kind: k, recs: rs, extra: extraBits(r, k)}
 		switch k {
 		case "w1":
 			e.codec = 1 + r.Intn(4)
@@ -837,6 +910,8 @@ func genPlan(r *rand.Rand, class int, thorough bool) []entryPlan {
 			if r.Intn(6) == 0 {
 				e.control, e.codec, e.sparse = true, 0, false
 				e.recs = controlRecs(r, rs[0].ms)
+			} else if r.Intn(8) == 0 {
+				e.empty = true // an empty retained batch (C02-D4 / D14 are fixed: both paths pass over it)
 			}
 		}
 		plan = append(plan, e)
@@ -941,6 +1016,286 @@ func pagesTest(r *rand.Rand, holders, churners, rounds int) string {
 	}
 }
 
+// ---------------------------------------------------------------- page buffer operations (data path)
+
+func patternBytes(n, seed int) []byte {
+	b := make([]byte, n)
+	for i := range b {
+		b[i] = byte(seed + i*131 + i/251)
+	}
+	return b
+}
+
+func digestOf(b []byte) string { return fmt.Sprintf("%d:%08x", len(b), crc32.ChecksumIEEE(b)) }
+
+// pagedSetCase: RecordSet.WriteTo (version 2, uncompressed) appended to a real page buffer that already holds `pre`
+// bytes; the result is the buffer content from 16 bytes before the record set to the end.
+func pagedSetCase(pre int, codec int, rs []rec) (string, string) {
+	op := fmt.Sprintf("pwset2 %d 0 0 %s", pre, recsArg(rs, false))
+	out := ""
+	res := guard2(func() {
+		pb := protocol.VerifNewPageBuffer()
+		defer pb.Unref()
+		prefix := make([]byte, pre)
+		for i := range prefix {
+			prefix[i] = byte(i % 251)
+		}
+		pb.Write(prefix)
+		set := protocol.RecordSet{Version: 2, Attributes: protocol.Attributes(codec), Records: protocol.NewRecordReader(toProtoRecords(rs)...)}
+		if _, err := pb.WriteRecordSet(&set); err != nil {
+			out = "error"
+			return
+		}
+		from := pre - 16
+		if from < 0 {
+			from = 0
+		}
+		tail := pb.ReadAt(int(pb.Size())-from, int64(from))
+		out = wb(tail)
+		if codec != 0 {
+			plain := ""
+			if d, err := decompressWith(codec, tail[pre-from+4+61:]); err == nil {
+				plain = wb(d)
+			}
+			op = fmt.Sprintf("pwset2c %d %d 0 %s %s", pre, codec, recsArg(rs, false), plain)
+		}
+	})
+	if res != "" {
+		return op, res
+	}
+	return op, out
+}
+
+// pagedSetV1Case: RecordSet.WriteTo (version 1, codec 0..4) appended to a real page buffer that already holds `pre` bytes
+func pagedSetV1Case(pre int, codec int, rs []rec) (string, string) {
+	op := fmt.Sprintf("pwset1 %d %d %s -", pre, codec, recsArg(rs, false))
+	out := ""
+	res := guard2(func() {
+		pb := protocol.VerifNewPageBuffer()
+		defer pb.Unref()
+		prefix := make([]byte, pre)
+		for i := range prefix {
+			prefix[i] = byte(i % 251)
+		}
+		pb.Write(prefix)
+		set := protocol.RecordSet{Version: 1, Attributes: protocol.Attributes(codec), Records: protocol.NewRecordReader(toProtoRecords(rs)...)}
+		if _, err := pb.WriteRecordSet(&set); err != nil {
+			out = "error"
+			return
+		}
+		from := pre - 16
+		if from < 0 {
+			from = 0
+		}
+		tail := pb.ReadAt(int(pb.Size())-from, int64(from))
+		out = wb(tail)
+		if codec != 0 {
+			plain := "-"
+			if d, err := decompressWith(codec, tail[pre-from+4+34:]); err == nil {
+				plain = wb(d)
+			}
+			op = fmt.Sprintf("pwset1 %d %d %s %s", pre, codec, recsArg(rs, false), plain)
+		}
+	})
+	if res != "" {
+		return op, res
+	}
+	return op, out
+}
+
+// pbufCase: a random sequence of operations on a real pageBuffer; sizes and offsets gather around multiples of the
+// 64 KiB page size
+func pbufCase(r *rand.Rand, steps int) (string, string) {
+	const P = 65536
+	near := func(limit int) int { // an offset in [0, limit] with a preference for page boundaries
+		if limit <= 0 {
+			return 0
+		}
+		switch r.Intn(4) {
+		case 0:
+			return r.Intn(limit + 1)
+		case 1:
+			return limit
+		default:
+			k := r.Intn(limit/P + 1)
+			x := k*P + []int{-2, -1, 0, 0, 1, 2, 100}[r.Intn(7)]
+			if x < 0 {
+				x = 0
+			}
+			if x > limit {
+				x = limit
+			}
+			return x
+		}
+	}
+	pb := protocol.VerifNewPageBuffer()
+	defer pb.Unref()
+	var ops, outs []string
+	res := guard2(func() {
+		for st := 0; st < steps; st++ {
+			size := int(pb.Size())
+			switch k := r.Intn(10); {
+			case k < 3 || size == 0: // Write
+				l := []int{0, 1, 7, 100, 4096, P - 1, P, P + 1, 2*P + 3, 3 * P}[r.Intn(10)]
+				sd := r.Intn(256)
+				pb.Write(patternBytes(l, sd))
+				ops = append(ops, fmt.Sprintf("w%d.%d", l, sd))
+			case k == 3: // WriteAt inside the written part
+				off := near(size)
+				l := r.Intn(size - off + 1)
+				if l > 3*P {
+					l = 3 * P
+				}
+				if r.Intn(2) == 0 && l > 8 {
+					l = 1 + r.Intn(8)
+				}
+				sd := r.Intn(256)
+				pb.WriteAt(patternBytes(l, sd), int64(off))
+				ops = append(ops, fmt.Sprintf("a%d.%d.%d", off, l, sd))
+			case k < 6: // ReadAt
+				off := near(size)
+				n := near(size - off)
+				ops = append(ops, fmt.Sprintf("r%d.%d", off, n))
+				outs = append(outs, digestOf(pb.ReadAt(n, int64(off))))
+			case k < 8: // scan
+				b := near(size)
+				e := b + near(size-b)
+				ops = append(ops, fmt.Sprintf("s%d.%d", b, e))
+				outs = append(outs, digestOf(pb.Scan(int64(b), int64(e))))
+			case k == 8: // Truncate
+				n := near(size)
+				pb.Truncate(n)
+				ops = append(ops, fmt.Sprintf("t%d", n))
+			default: // ref [b,e) and read inside it
+				b := near(size)
+				e := b + near(size-b)
+				off := near(e - b)
+				n := near(e-b-off) + r.Intn(3)
+				ref := pb.Ref(int64(b), int64(e))
+				ops = append(ops, fmt.Sprintf("f%d.%d.%d.%d", b, e, off, n))
+				outs = append(outs, digestOf(protocol.VerifRefReadAt(ref, n, int64(off))))
+				ref.Close()
+			}
+		}
+	})
+	o := "-"
+	if len(outs) > 0 {
+		o = strings.Join(outs, ",")
+	}
+	if res != "" {
+		o = res
+	}
+	return strings.Join(ops, ","), o
+}
+
+func guard2(f func()) (res string) {
+	defer func() {
+		if p := recover(); p != nil {
+			res = strings.ReplaceAll(fmt.Sprintf("panic:%v", p), " ", "_")
+		}
+	}()
+	f()
+	return ""
+}
+
+// pageTrace: a sequential scenario (decode and hold key/value Bytes, release some, encode, decode again so that
+// pooled pages are reused, release the rest) recorded by the page hooks of protocol/buffer.go.
+type heldBytes struct {
+	b    protocol.Bytes
+	want []byte
+}
+
+type pageScenario struct {
+	r   *rand.Rand
+	hs  []heldBytes
+	bad string
+}
+
+func (ps *pageScenario) release(k int) {
+	for k > 0 && len(ps.hs) > 0 {
+		i := ps.r.Intn(len(ps.hs))
+		x := ps.hs[i]
+		ps.hs = append(ps.hs[:i], ps.hs[i+1:]...)
+		got, err := protocol.ReadAll(x.b)
+		if err != nil || !bytes.Equal(got, x.want) {
+			ps.bad = "held bytes changed"
+		}
+		x.b.Close()
+		k--
+	}
+}
+
+func (ps *pageScenario) run(steps int) {
+	defer func() {
+		if p := recover(); p != nil {
+			ps.bad = strings.ReplaceAll(fmt.Sprintf("panic:%v", p), " ", "_")
+		}
+	}()
+	r := ps.r
+	for st := 0; st < steps; st++ {
+		switch r.Intn(4) {
+		case 0, 1: // decode a set and keep its keys / values
+			rs := genRecs(r, 1+r.Intn(4), []int{0, 1, 2}[r.Intn(3)], false)
+			version := int8(1 + r.Intn(2))
+			set, err := produceProto(version, []int{0, 0, 1, 2}[r.Intn(4)], rs)
+			if err != nil {
+				ps.bad = "encode: " + err.Error()
+				continue
+			}
+			var rset protocol.RecordSet
+			if _, err := rset.ReadFrom(bufio.NewReader(bytes.NewReader(withSize(set)))); err != nil {
+				ps.bad = "decode: " + err.Error()
+				continue
+			}
+			for i := 0; ; i++ {
+				rec, err := rset.Records.ReadRecord()
+				if err != nil {
+					break
+				}
+				if rec.Key != nil {
+					ps.hs = append(ps.hs, heldBytes{rec.Key, rs[i].key})
+				}
+				if rec.Value != nil {
+					ps.hs = append(ps.hs, heldBytes{rec.Value, rs[i].value})
+				}
+			}
+		case 2:
+			ps.release(1 + r.Intn(4))
+		case 3: // encode only (page buffers of the writer, Truncate on the compressed v1 path)
+			produceProto(int8(1+r.Intn(2)), r.Intn(5), genRecs(r, 1+r.Intn(3), r.Intn(3), false))
+		}
+	}
+	ps.release(len(ps.hs))
+}
+
+func pageTrace(r *rand.Rand, steps int) (string, string) {
+	ps := &pageScenario{r: r}
+	protocol.VerifPagesStart()
+	ps.run(steps)
+	evs := protocol.VerifPagesStop()
+	parts := make([]string, len(evs))
+	for i, e := range evs {
+		switch e.Kind {
+		case "alloc":
+			parts[i] = "a"
+		case "reuse":
+			parts[i] = fmt.Sprintf("r%d", e.Page)
+		case "ref":
+			parts[i] = fmt.Sprintf("f%d", e.Page)
+		default:
+			parts[i] = fmt.Sprintf("u%d", e.Page)
+		}
+	}
+	tr := "-"
+	if len(parts) > 0 {
+		tr = strings.Join(parts, ",")
+	}
+	if ps.bad != "" {
+		return tr, ps.bad
+	}
+	return tr, fmt.Sprintf("ok %d", len(parts))
+}
+
 // ---------------------------------------------------------------- main
 
 func recsArg(rs []rec, nanos bool) string {
@@ -985,6 +1340,10 @@ func zFor(set []byte, version int, codec int) (string, bool) {
 	return fmt.Sprintf(" z%d:%d:%s", start, len(set)-start, wb(plain)), true
 }
 
+// v1WithHeaders: the records of a message-format-1 case carry headers, which that format cannot hold (known finding
+// C05-D32: they are dropped without an error)
+var v1WithHeaders bool
+
 func produceCase(r *rand.Rand, path string, version int, codec int, rs []rec, totalSmall bool) {
 	var set []byte
 	var err error
@@ -1007,11 +1366,14 @@ func produceCase(r *rand.Rand, path string, version int, codec int, rs []rec, to
 		}
 	}()
 	tag := fmt.Sprintf("produce/%s/v%d/c%d/produced", path, version, codec)
+	if v1WithHeaders {
+		tag = fmt.Sprintf("produce/%s/v1hdr/c%d/produced", path, codec)
+	}
 	offs := func(i int) int64 { return int64(i) }
 	if path == "conn" && version == 1 && codec == 0 {
 		offs = func(int) int64 { return 0 } // Message.Offset is written as is; brokers assign offsets
 	}
-	want := givenCanon(rs, offs, version == 2)
+	want := givenCanon(rs, offs, version == 2 || v1WithHeaders)
 	if err != nil {
 		emit(fmt.Sprintf("wire %s -", tag), "error:"+errClass(err)+" wanted "+want)
 		return
@@ -1022,6 +1384,30 @@ func produceCase(r *rand.Rand, path string, version int, codec int, rs []rec, to
 		return
 	}
 	emit(fmt.Sprintf("wire %s %s%s", tag, wb(set), z), want)
+	// byte-exact writer models (compressed: modulo the compressor's output, which is read off the bytes)
+	if totalSmall && (path == "proto" || path == "conn") && !(codec == 0 && version == 2) {
+		plain := ""
+		if codec != 0 {
+			start := map[int]int{1: 34, 2: 61}[version]
+			if d, err := decompressWith(codec, set[start:]); err == nil {
+				plain = wb(d)
+			}
+		}
+		switch {
+		case version == 1 && codec == 0 && path == "proto":
+			emit(fmt.Sprintf("wmodel1 0 %s", recsArg(rs, false)), wb(set))
+		case version == 1 && codec == 0:
+			emit(fmt.Sprintf("lmodel1 %s", recsArg(rs, true)), wb(set))
+		case version == 1 && path == "proto":
+			emit(fmt.Sprintf("wmodel1c %d %s %s", codec, recsArg(rs, false), plain), wb(set))
+		case version == 1:
+			emit(fmt.Sprintf("lmodel1c %d %s %s", codec, recsArg(rs, true), plain), wb(set))
+		case path == "proto":
+			emit(fmt.Sprintf("wmodel2c %d 0 %s %s", codec, recsArg(rs, false), plain), wb(set))
+		default:
+			emit(fmt.Sprintf("lmodel2c %d %s %s", codec, recsArg(rs, true), plain), wb(set))
+		}
+	}
 	if codec == 0 && version == 2 && totalSmall {
 		if path == "proto" {
 			emit(fmt.Sprintf("wmodel2 0 0 %s", recsArg(rs, false)), wb(set))
@@ -1047,6 +1433,33 @@ func main() {
 	}
 	defer o.Close()
 
+	if mode == "pagetrace" {
+		// first page activity of the process: every page is seen from its allocation on
+		steps := 60
+		if thorough {
+			steps = 400
+		}
+		evs, res := pageTrace(r, steps)
+		emit("ptrace "+evs, res)
+		return
+	}
+	if mode == "wrapkey" {
+		// exploration (not part of the check): a compressed v1 wrapper that carries a KEY — the hypothesis `hkey` of
+		// Props/C05.decoders_agree_content excludes it (brokers write wrappers with a null key)
+		inner := ask(o, "encset m:1:0:0:1600000000000:6b31:7631 m:1:1:0:1600000000001:6b32:7632")
+		if len(os.Args) > 3 && os.Args[3] == "empty" {
+			inner = nil
+		}
+		comp := compressWith(1, inner)
+		val := wb(comp)
+		if len(os.Args) > 3 && os.Args[3] == "nullvalue" {
+			val = "nil"
+		}
+		set := ask(o, fmt.Sprintf("encset m:1:11:1:1600000000001:%s:%s", os.Args[2], val))
+		fmt.Println("client:", canonList(fetchClient(set, 10)))
+		fmt.Println("conn:  ", canonList(fetchConn(set, 10, 12, 5)))
+		return
+	}
 	if mode == "pages" {
 		for i := 0; i < 3; i++ {
 			emit(fmt.Sprintf("pages 6 6 %d", 30+i), pagesTest(r, 6, 6, 30+i))
@@ -1055,6 +1468,46 @@ func main() {
 	}
 	if mode == "all" {
 		emit("pages 3 3 6", pagesTest(r, 3, 3, 6))
+	}
+	if mode == "all" || mode == "pbuf" {
+		n := 25
+		if thorough {
+			n = 150
+		}
+		for i := 0; i < n; i++ {
+			ops, res := pbufCase(r, 4+r.Intn(14))
+			emit("pbuf "+ops, res)
+		}
+		// the v2 writer's placeholders and back-patches laid across the page boundary: every start offset from
+		// 70 bytes before it to 2 after (so that each of the six WriteAt calls is split at least once), and far inside
+		m := 8
+		if thorough {
+			m = 73
+		}
+		for i := 0; i < m; i++ {
+			pre := 65536 - 70 + i
+			if !thorough {
+				pre = 65536 - 70 + r.Intn(73)
+			}
+			ops, res := pagedSetCase(pre, 0, genRecs(r, 1+r.Intn(3), 0, true))
+			emit(ops, res)
+			if i%2 == 0 || thorough {
+				ops, res = pagedSetCase(pre, 1+r.Intn(4), genRecs(r, 1+r.Intn(3), 0, true))
+				emit(ops, res)
+			}
+		}
+		ops, res := pagedSetCase(r.Intn(50), 0, genRecs(r, 1+r.Intn(3), 0, true))
+		emit(ops, res)
+		// the v1 writer: per-message back-patches at +8/+12 across the boundary; compressed: scan, Truncate, wrapper
+		m1 := 6
+		if thorough {
+			m1 = 40
+		}
+		for i := 0; i < m1; i++ {
+			pre := 65536 - 40 + r.Intn(44)
+			ops, res := pagedSetV1Case(pre, []int{0, 0, 1, 2, 3, 4}[i%6], genRecs(r, 1+r.Intn(3), 0, false))
+			emit(ops, res)
+		}
 	}
 
 	// --- crc validation
@@ -1106,6 +1559,14 @@ func main() {
 				}
 			}
 		}
+		// message format 1 cannot carry headers: one case per path with headers given (known finding C05-D32)
+		v1WithHeaders = true
+		for _, path := range []string{"proto", "client", "writer", "conn"} {
+			hs := genRecs(r, 2, 0, true)
+			hs[0].hdrs = []protocol.Header{{Key: "h", Value: []byte("v")}}
+			produceCase(r, path, 1, 0, hs, false)
+		}
+		v1WithHeaders = false
 		// many small records in one batch (offset deltas and varint widths beyond one byte)
 		produceCase(r, "proto", 2, 0, genRecs(r, 150, 0, false), false)
 		produceCase(r, "conn", 2, 0, genRecs(r, 150, 0, false), false)
@@ -1137,9 +1598,10 @@ func main() {
 			hexs := wb(bt.bytes)
 			emit(fmt.Sprintf("wire fetch/recordset/%s/hidectl %s%s", desc, hexs, zs), canonList(fetchRecordSet(bt.bytes, i%3)))
 			emit(fmt.Sprintf("wire fetch/client/%s/hidectl %s%s", desc, hexs, zs), canonList(fetchClient(bt.bytes, base)))
-			if !bt.ctl {
+			{
+				// control batches too: the Conn path passes over them since fix 314fa1c
 				fv := []int16{2, 5, 10}[i%3]
-				emit(fmt.Sprintf("wire fetch/conn-v%d/%s/loose %s%s", fv, desc, hexs, zs), canonList(fetchConn(bt.bytes, base, bt.next, fv)))
+				emit(fmt.Sprintf("wire fetch/conn-v%d/%s/hidectl,exact %s%s", fv, desc, hexs, zs), canonList(fetchConn(bt.bytes, base, bt.next, fv)))
 			}
 			// corrupt one entry: nothing of it may be surfaced by the Client.Fetch path
 			if i%2 == 0 {
